@@ -195,6 +195,8 @@ func main() {
 		r.Require("mutant/"+m.name, 2)
 	}
 	r.Require("rejected_at_decode", 5)
+	r.Require("mutant_after_header_sync/sig-removed", 2)
+	r.Require("mutant_after_header_sync/sig-garbled", 2)
 	r.Require("rejected_by_AddBlock", 20)
 	r.Require("rejected_by_Execute+Submit", 20)
 	r.Require("valid_block_accepted_after_mutants", 5)
@@ -258,7 +260,14 @@ func runChain(r *vf.Run, rng *vf.RNG, dir string, nbk int, ki int) {
 			panic(fmt.Errorf("reference block invalid: %v", err))
 		}
 		if h >= 2 && (h%2 == 0 || vf.Thorough()) {
-			tryMutants(r, rng.Sub(uint64(h)+500), c, B, ref.MerkleRoot, outside, w, multi, fmt.Sprintf("%dbk", nbk))
+			tryMutants(r, rng.Sub(uint64(h)+500), c, B, ref.MerkleRoot, outside, w, multi, fmt.Sprintf("%dbk", nbk), false)
+			// header-first sync: the valid header becomes known (a legitimate step), then blocks with that very
+			// header hash but other signature lists are offered (the block hash does not cover the signatures)
+			if err := c.Ledger.AddHeaders([]*types.Header{clone(B).Header}); err != nil {
+				r.Violation("valid-header-rejected", err.Error(), map[string]interface{}{"height": h, "chain": nbk})
+			} else {
+				tryMutants(r, rng.Sub(uint64(h)+900), c, B, ref.MerkleRoot, outside, w, multi, fmt.Sprintf("%dbk", nbk), true)
+			}
 		}
 		// the valid block must (still) be accepted with the reference result
 		res2, err := c.Ledger.ExecuteBlock(B)
@@ -279,13 +288,16 @@ func runChain(r *vf.Run, rng *vf.RNG, dir string, nbk int, ki int) {
 	}
 }
 
-func tryMutants(r *vf.Run, rng *vf.RNG, c *chain.Chain, B *types.Block, root common.Uint256, outside *account.Account, w *chain.World, multi bool, kind string) {
+func tryMutants(r *vf.Run, rng *vf.RNG, c *chain.Chain, B *types.Block, root common.Uint256, outside *account.Account, w *chain.World, multi bool, kind string, headerSynced bool) {
 	cur := c.Ledger.GetCurrentBlockHeight()
 	prev, _ := c.Ledger.GetHeaderByHeight(cur)
 	older := c.Ledger.GetBlockHash(cur - 1)
 	extra, _ := w.TB.TransferTx("ont", w.Accts[2], w.Accts[3].Address, 3, 0, 20000)
 	before := observe(c)
 	for mi, m := range mutants(multi) {
+		if headerSynced && !(len(m.name) > 3 && m.name[:3] == "sig") {
+			continue // after the header was synced only mutants with the SAME header hash are of interest: the signature mutants
+		}
 		for _, path := range []string{"AddBlock", "Execute+Submit"} {
 			x := &mctx{c: c, rng: rng.Sub(uint64(mi)), prev: prev, older: older, outside: outside, extraTx: extra}
 			mb := clone(B)
@@ -308,8 +320,15 @@ func tryMutants(r *vf.Run, rng *vf.RNG, c *chain.Chain, B *types.Block, root com
 				continue // the state-root argument only exists on the AddBlock path and is not checked for empty blocks
 			}
 			id := map[string]interface{}{"chain": kind, "height": cur + 1, "mutant": m.name, "path": path, "block_hex": vf.HexTrunc(mb.ToArray(), 4096)}
-			r.Count("mutant/" + m.name)
-			r.Eval(fmt.Sprintf("%s/%d/%s/%s", kind, cur+1, m.name, path))
+			if headerSynced {
+				id["after_header_sync"] = true
+				r.Count("mutant_after_header_sync/" + m.name)
+				path2 := path + "/after-header-sync"
+				r.Eval(fmt.Sprintf("%s/%d/%s/%s", kind, cur+1, m.name, path2))
+			} else {
+				r.Count("mutant/" + m.name)
+				r.Eval(fmt.Sprintf("%s/%d/%s/%s", kind, cur+1, m.name, path))
+			}
 			// blocks travel as bytes
 			var offered *types.Block
 			raw := serialize(mb)
